@@ -2,6 +2,11 @@ use crate::alloc::{format, Vec};
 use crate::error::MockError;
 use crate::{debug, MockFnInfo};
 
+#[cfg(unimock_verif)]
+use crate::verif::sync::AtomicUsize;
+#[cfg(unimock_verif)]
+use core::fmt::Display;
+#[cfg(not(unimock_verif))]
 use core::{fmt::Display, sync::atomic::AtomicUsize};
 
 pub(crate) struct CallCounter {
